@@ -1,7 +1,184 @@
 import Driver.Util
+import Model.Aftersun
+/-! Driver for engine `aftersun` (C18), function mode.
+
+The harness lists every root directory of a run of the built `partial-aftersun` binary as it was
+before the run, says what the published checkpoint of each root is worth, and reports the exit
+status and every path that disappeared. The driver evaluates `Aftersun.runRoots` — the definitions
+`Props/C18.lean` is about — on that listing and compares deletions (per root, as sets) and status.
+
+  case <id> <family>
+  root <ri> log|mirror ok <N> | missing | bad
+  e <ri> <hex path> d|f <size>          (every file and directory under the root)
+  run <exit status>
+  del <ri> f|d <hex path>
+  end <id>
+-/
 namespace Driver.Aftersun
-/-- stub: engine not implemented yet -/
+open _root_.Aftersun TilePath
+
+structure Item where
+  parent : Bytes
+  name : Bytes
+  path : Bytes
+  isDir : Bool
+  size : Nat
+
+structure RootIn where
+  kind : Kind
+  size : SizeRes
+  items : Array Item := #[]
+  dels : List Del := []
+
+structure St where
+  t : Driver.Tally := {}
+  caseId : String := ""
+  roots : Array RootIn := #[]
+  exit : Nat := 0
+  active : Bool := false
+
+/-- split a path at its last '/' -/
+def splitLast (p : Bytes) : Bytes × Bytes :=
+  let r := p.reverse
+  let name := (r.takeWhile (· ≠ 47)).reverse
+  let rest := r.dropWhile (· ≠ 47)
+  ((rest.drop 1).reverse, name)
+
+def bytesLt : Bytes → Bytes → Bool
+  | [], [] => false
+  | [], _ :: _ => true
+  | _ :: _, [] => false
+  | a :: as, b :: bs => if a < b then true else if b < a then false else bytesLt as bs
+
+def insertSorted (e : Ent) : List Ent → List Ent
+  | [] => [e]
+  | x :: xs => if bytesLt e.name x.name then e :: x :: xs else x :: insertSorted e xs
+
+def mkFS (items : Array Item) : FS where
+  readDir p :=
+    let isDir := p.isEmpty || items.any (fun it => it.path == p && it.isDir)
+    if !isDir then none
+    else some (items.foldl (fun acc it => if it.parent == p then insertSorted ⟨it.name, it.isDir, it.size⟩ acc else acc) [])
+  stat p :=
+    match items.find? (fun it => it.path == p) with
+    | some it => some ⟨it.name, it.isDir, it.size⟩
+    | none => none
+
+def showDel : Del → String
+  | .file p => "f:" ++ Bytes.toHexP p
+  | .dir p => "d:" ++ Bytes.toHexP p
+
+def sortStrings (l : List String) : List String := (l.toArray.qsort (· < ·)).toList
+
+def statusName : Status → String
+  | .ok => "ok" | .abort => "abort" | .panic => "panic" | .fuel => "fuel"
+
+/-- classify every `.p` directory of a root with the model's own guards (coverage report only) -/
+def classify (r : RootIn) (fs : FS) (t : Driver.Tally) : Driver.Tally :=
+  match r.size with
+  | .ok n =>
+    r.items.foldl (fun t it =>
+      if it.isDir && hasSuffix it.name dotP && it.name.head? != some (120 : UInt8) then
+        let full := it.path.take (it.path.length - 2)
+        match fs.stat full with
+        | none => t.bump "pdir:no-sibling"
+        | some _ =>
+          match parserOf r.kind full with
+          | none => t.bump "pdir:unparsable"
+          | some tile =>
+            match atOrRightOfEdge tile n with
+            | none => t.bump "pdir:panic"
+            | some true => t.bump "pdir:at-or-right-of-edge"
+            | some false => t.bump "pdir:left-of-edge"
+      else t) t
+  | _ => t
+
+def finishCase (s : St) (lineno : Nat) : IO St := do
+  let roots := s.roots.toList.map fun r => ({ kind := r.kind, fs := mkFS r.items, size := r.size } : Root)
+  let out := runRoots 64 roots 0
+  let mut t := s.t
+  let mut bad := false
+  if out.2 ≠ s.exit then
+    bad := true
+    IO.println s!"MISMATCH {lineno} case {s.caseId}: exit status: implementation {s.exit}, model {out.2}"
+  let mut i := 0
+  for (r, ds) in s.roots.toList.zip out.1 do
+    -- a partial-tile entry that is an (empty) directory is reported by the harness as a directory
+    let kindOf (d : Del) : Del := match d with
+      | .file p => if r.items.any (fun it => it.path == p && it.isDir) then .dir p else .file p
+      | d => d
+    let want := sortStrings (ds.map (showDel ∘ kindOf))
+    let got := sortStrings (r.dels.map showDel)
+    if want ≠ got then
+      bad := true
+      let onlyModel := want.filter (fun x => !got.contains x)
+      let onlyImpl := got.filter (fun x => !want.contains x)
+      IO.println s!"MISMATCH {lineno} case {s.caseId} root {i}: deletions differ: only-model={onlyModel.take 4} only-implementation={onlyImpl.take 4} (model {want.length}, implementation {got.length})"
+    -- coverage
+    let fs := mkFS r.items
+    t := classify r fs t
+    match r.size with
+    | .ok n =>
+      let res := cleanRoot fs (parserOf r.kind) n 64
+      t := t.bump ("root:" ++ statusName res.2)
+      if res.2 == .fuel then
+        bad := true
+        IO.println s!"MISMATCH {lineno} case {s.caseId} root {i}: model ran out of fuel"
+    | .missing => t := t.bump "root:no-checkpoint"
+    | .bad => t := t.bump "root:bad-checkpoint"
+    for d in ds do
+      t := match d with
+        | .file _ => t.bump "del:file"
+        | .dir _ => t.bump "del:dir"
+    i := i + 1
+  t := t.bump s!"exit:{out.2}"
+  t := if bad then { t with mismatches := t.mismatches + 1 } else { t with ok := t.ok + 1 }
+  return { t := t }
+
+def step (s : St) (lineno : Nat) (line : String) : IO St := do
+  let s := { s with t := { s.t with lines := s.t.lines + 1 } }
+  match Driver.words line with
+  | ["case", id, _fam] => return { s with caseId := id, roots := #[], exit := 0, active := true }
+  | "root" :: _ri :: kind :: rest =>
+    let k := if kind == "mirror" then Kind.mirror else Kind.log
+    let sz : SizeRes := match rest with
+      | ["ok", n] => .ok n.toNat!
+      | ["missing"] => .missing
+      | _ => .bad
+    return { s with roots := s.roots.push { kind := k, size := sz } }
+  | ["e", ri, hp, k, sz] =>
+    match Bytes.ofHex hp with
+    | none =>
+      IO.println s!"MISMATCH {lineno} bad hex"
+      return { s with t := { s.t with mismatches := s.t.mismatches + 1 } }
+    | some p =>
+      let (parent, name) := splitLast p
+      let i := ri.toNat!
+      if h : i < s.roots.size then
+        let r := s.roots[i]
+        let r := { r with items := r.items.push { parent, name, path := p, isDir := k == "d", size := sz.toNat! } }
+        return { s with roots := s.roots.set i r }
+      else return s
+  | ["run", code] => return { s with exit := code.toNat! }
+  | ["del", ri, k, hp] =>
+    match Bytes.ofHex hp with
+    | none => return s
+    | some p =>
+      let i := ri.toNat!
+      if h : i < s.roots.size then
+        let r := s.roots[i]
+        let d := if k == "d" then Del.dir p else Del.file p
+        return { s with roots := s.roots.set i { r with dels := d :: r.dels } }
+      else return s
+  | ["end", _] => if s.active then finishCase s lineno else return s
+  | [] => return s
+  | _ =>
+    IO.println s!"MISMATCH {lineno} unparsable line: {line.take 80}"
+    return { s with t := { s.t with mismatches := s.t.mismatches + 1 } }
+
 def main : IO UInt32 := do
-  IO.println "MISMATCH 0 engine aftersun has no driver yet"
+  let s ← Driver.foldLines ({} : St) step
+  IO.println s.t.summary
   return 0
+
 end Driver.Aftersun
